@@ -128,3 +128,94 @@ func runStreamStress(c *core.Ctx, rounds int) ([]*Trace, error) {
 	c.Set("stream_stress_rounds", rounds)
 	return traces, nil
 }
+
+type c19done struct{}
+
+// runSubscriberRespawnStress: a parent re-spawns child "c" under the same name as soon as it hears of its termination;
+// every incarnation subscribes at launch and asks to be replaced after it has received three events; a publisher
+// publishes all the time.  An incarnation that is subscribed must receive events: if the rounds stop advancing, the
+// current incarnation is subscribed and deaf.
+func runSubscriberRespawnStress(rounds int) ([]*Trace, error) {
+	verifhook.Set(nil)
+	sys := actor.NewSystem(vivid.WithActorSystemContext(context.Background()), vivid.WithActorSystemLogger(silentLogger), vivid.WithActorSystemStopTimeout(2*time.Second))
+	if err := sys.Start(); err != nil {
+		return nil, err
+	}
+	defer func() { go sys.Stop(2 * time.Second) }()
+	var round atomic.Int64
+	finished := make(chan struct{})
+	child := func() vivid.Actor {
+		got := 0
+		return vivid.ActorFN(func(ctx vivid.ActorContext) {
+			switch ctx.Message().(type) {
+			case *vivid.OnLaunch:
+				ctx.EventStream().Subscribe(ctx, evA{})
+			case evA:
+				got++
+				if got == 3 {
+					ctx.Tell(ctx.Parent(), c19done{})
+				}
+			}
+		})
+	}
+	if _, err := sys.ActorOf(vivid.ActorFN(func(ctx vivid.ActorContext) {
+		switch m := ctx.Message().(type) {
+		case *vivid.OnLaunch:
+			_, _ = ctx.ActorOf(child(), vivid.WithActorName("c"))
+		case c19done:
+			if s := ctx.Sender(); s != nil {
+				ctx.Kill(s, false, "next incarnation")
+			}
+		case *vivid.OnKilled:
+			if m.Ref.Equals(ctx.Ref()) {
+				return
+			}
+			if round.Add(1) >= int64(rounds) {
+				close(finished)
+				return
+			}
+			_, _ = ctx.ActorOf(child(), vivid.WithActorName("c"))
+		}
+	}), vivid.WithActorName("p")); err != nil {
+		return nil, err
+	}
+	stop := make(chan struct{})
+	go func() {
+		id := 0
+		for {
+			select {
+			case <-stop:
+				return
+			default:
+			}
+			id++
+			sys.EventStream().Publish(sys, evA{ID: id})
+			time.Sleep(20 * time.Microsecond)
+		}
+	}()
+	defer close(stop)
+	deaf := false
+	last, lastChange := int64(-1), time.Now()
+	for {
+		select {
+		case <-finished:
+		case <-time.After(5 * time.Millisecond):
+			if r := round.Load(); r != last {
+				last, lastChange = r, time.Now()
+				continue
+			}
+			if time.Since(lastChange) < 1500*time.Millisecond {
+				continue
+			}
+			deaf = true
+		}
+		break
+	}
+	ev := []map[string]any{{"e": "Sub", "a": "c", "s": "A"}, {"e": "Pub", "a": "p", "m": 1, "s": "A"}}
+	if !deaf {
+		ev = append(ev, map[string]any{"e": "Deliv", "a": "c", "k": "event", "m": 1, "s": "A", "i": 1})
+	}
+	ev = append(ev, map[string]any{"e": "QEnd"})
+	return []*Trace{{Events: ev, Class: "subscriber-respawn-stress", Name: fmt.Sprintf("subscriber respawn stress (%d of %d rounds)", round.Load(), rounds),
+		Scenario: map[string]any{"rounds": rounds, "completed": round.Load(), "what": "child 'c' subscribes at launch and is replaced under the same name after three events; a publisher publishes continuously; the incarnation of the last round received nothing for 1.5 s"}}}, nil
+}
